@@ -91,3 +91,4 @@ impl ToStringSpec for AccountId {
     #[verifier::external_body]
     fn to_string(&self) -> (r: String) { unimplemented!() }
 }
+
